@@ -2,7 +2,7 @@
 From Coq Require Import List String Bool.
 Import ListNotations.
 From ClasticV Require Import Base.Py Base.FSet Gen.Tables Model.Chain Model.Exec
-     Proofs.ChainProofs Proofs.ExecProofs Proofs.RouteProofs.
+     Proofs.ChainProofs Proofs.ExecProofs Proofs.RouteProofs Proofs.OnionProofs Proofs.ValueProofs Proofs.NestedProofs.
 Local Open Scope string_scope.
 Local Open Scope list_scope.
 
@@ -42,6 +42,39 @@ Theorem C02_request_base :
   forall x, In x (req_avail_of (dedup (src_offers c))) <-> In x (base c).
 Proof. exact req_avail_base. Qed.
 Print Assumptions C02_request_base.
+
+(* VALUES.  In every accepted route, for every script assignment (raise before/after next, early Response, swallow,
+   replace), every function of the three chains is entered with, for each keyword it is passed, EXACTLY the value of
+   that name's one source [src_of]: no cross-wiring between two names, two phases or two functions is possible. *)
+Theorem C02_value_is_source :
+  forall c pl sc, build_route c = Ok pl ->
+  forall f kws, In (Enter f kws) (snd (run sc pl (base_env c))) ->
+  forall n v, In (n, v) kws -> v = src_of c sc n.
+Proof. intros c pl sc Hb f kws Hin n v Hk. exact (value_is_source c pl sc Hb f kws Hin n v Hk). Qed.
+Print Assumptions C02_value_is_source.
+
+(* ... where the source of a name is: next itself; the context the endpoint returned; the URL value; the built-in;
+   the registered resource; or what the providing middleware function (phase ph, instance i) handed to next() *)
+Theorem C02_sources :
+  forall c pl sc, build_route c = Ok pl ->
+  src_of c sc "next" = VNext /\
+  (forall tag, s_ep sc = ECtx tag -> src_of c sc "context" = VS tag) /\
+  (forall n, In n (r_url c) -> src_of c sc n = VS ("U:" ++ n)) /\
+  (forall n, In n REQUEST_BUILTINS -> src_of c sc n = VS ("B:" ++ n)) /\
+  (forall n, In n (r_resources c) -> src_of c sc n = VS ("R:" ++ n)) /\
+  (forall ph x i n, In x (phase_funcs ph (r_mws c)) -> fid_of x = FMw ph i -> In n (snd x) ->
+                    src_of c sc n = provided_value ph i n).
+Proof. exact src_of_spec. Qed.
+Print Assumptions C02_sources.
+
+(* the same for a route embedded under a prefix in an outer application: sources include the URL bindings of the prefix and
+   the resources of all levels *)
+Theorem C02_nested_value_is_source :
+  forall o a pn pr m2 sc, build_nested o a = Ok (pn, pr, m2) ->
+  forall f kws, In (Enter f kws) (snd (run sc pr (base_env (nested_route_cfg o a m2)))) ->
+  forall n v, In (n, v) kws -> v = src_of (nested_route_cfg o a m2) sc n.
+Proof. intros o a pn pr m2 sc Hb f kws Hin n v Hk. exact (nested_value_is_source o a pn pr m2 sc Hb f kws Hin n v Hk). Qed.
+Print Assumptions C02_nested_value_is_source.
 
 (* concrete run with distinct sentinels: keyword-only parameter with a default
    receives the URL value (repaired defect F1), endpoint_provides invisible in render *)
